@@ -1,11 +1,35 @@
 """C02 - annotations are enforced exactly: error iff value is not in the type.
 
 Workload: cross product (annotation grammar x ground value expressions) at the
-three enforcement sites; every case has its own def/call/return/assignment
-line, so the error line identifies the case.  Oracle: the three-valued
-structural `member(eval(value), eval(annotation))` of vf/oracle/member.py,
-evaluated on the real run-time value in the worker.  Undecided cases and cases
-whose annotation pytype itself rejects are counted and not judged.
+three enforcement sites
+
+    def g_i(x: T): pass          v_i: T = e          def r_i() -> T:
+    g_i(e)                                             return e
+
+Every case has its own def / call / return / assignment line, so the error
+line identifies the case.  Oracle: the three-valued structural
+`member(eval(e), eval(T))` of vf/oracle/member.py, evaluated on the real
+run-time value in the worker.  Undecided cases and cases whose annotation
+pytype itself rejects (any error on the def line, any error of another class
+on the use line) are counted and not judged.
+
+Mechanism keys.  A disagreement on a composite pair is first *localised*: if a
+one-level part of it (an element against the element type, a union branch, a
+tuple position) is itself a disagreement of the same direction at the same
+site, the composite case takes the key of that part (same mechanism, wrapped).
+Otherwise the key is built from skeletons:
+
+  missed, value has the outer shape T asks for but some element is not in the
+  element type:   K[.]|mixed  or  K[.]|no-member   (K = outer constructor;
+                  mixed = every position has some member, some non-member)
+  missed, other:  <annotation skeleton>|<value head>
+  spurious:       <annotation skeleton>|<value skeleton>
+
+where a skeleton keeps every constructor, keeps the name of a top-level
+builtin leaf (bool, Hashable, ...) and replaces nested leaves by their kind
+(scalar, None, top, user).  `v: T = None` is keyed `any|None` (pytype allows a
+None initial value for every T).  If the same key fires at all three sites of a
+pair it is reported once with site `all-sites`.
 """
 from __future__ import annotations
 
@@ -19,14 +43,11 @@ PID = "C02"
 SITES = ("arg", "return", "assign")
 SITE_ERROR = {"arg": "wrong-arg-types", "return": "bad-return-type",
               "assign": "annotation-type-mismatch"}
-# errors that mean "pytype did not accept the annotation itself"
-ANNOTATION_ERRORS = {"invalid-annotation", "not-supported-yet", "import-error", "name-error",
-                     "unsupported-operands", "not-indexable", "pyi-error", "module-attr",
-                     "attribute-error", "bad-concrete-type", "invalid-typevar"}
+MODULE_PAIRS = 100
 
 
 # ---------------------------------------------------------------------------
-# child
+# child side: build, analyse, evaluate the oracle
 
 
 def build_module(pairs):
@@ -55,54 +76,192 @@ def runtime_namespace():
   return ns
 
 
-def oracle(ns, ann_text, val_text):
-  """-> (verdict True/False/None, reason string)"""
-  from vf.oracle import member as M
-  try:
-    ann = eval(ann_text, ns)  # pylint: disable=eval-used
-    val = eval(val_text, ns)  # pylint: disable=eval-used
-  except Exception as e:  # pylint: disable=broad-except
-    return None, f"eval failed: {type(e).__name__}: {e}", None
-  m = M.member(val, ann)
-  causes = None
-  if m is False:
-    causes = []
-    for path, sub_ann, sub_val in M.why(val, ann):
-      causes.append({"path": list(path), "ann": ann_repr(sub_ann), "val": val_leaf(sub_val)})
-  return m, "", causes
+USER = ("A", "B", "C", "D", "S", "U")
+SCALARS = (int, float, complex, str, bytes, bool, bytearray)
 
 
-def ann_repr(a):
+def canon(a):
+  """Canonical text of an annotation object (grid texts and sub-annotations agree on it)."""
   import typing
   if a is None or a is type(None):
     return "None"
+  if a is Ellipsis:
+    return "..."
+  if isinstance(a, list):
+    return "[" + ", ".join(canon(x) for x in a) + "]"
   if isinstance(a, type) and typing.get_origin(a) is None:
     return a.__name__
-  return repr(a).replace("typing.", "").replace("__main__.", "").replace("NoneType", "None")
+  if a is typing.Any:
+    return "Any"
+  origin, args = typing.get_origin(a), typing.get_args(a)
+  if origin is None:
+    return repr(a).replace("typing.", "")
+  name = getattr(a, "_name", None) or getattr(origin, "__name__", repr(origin))
+  if origin is typing.Union:
+    if len(args) == 2 and type(None) in args:
+      other = args[0] if args[1] is type(None) else args[1]
+      return f"Optional[{canon(other)}]"
+    name = "Union"
+  if origin is tuple and not args:
+    return "Tuple[()]" if a is not typing.Tuple else "Tuple"
+  if not args:
+    return str(name)
+  return f"{name}[{', '.join(canon(x) for x in args)}]"
 
 
-def val_leaf(v):
-  """Short structural description of a value (class names; containers list the set of element descriptions)."""
+def _leaf_kind(a):
+  import typing
+  if a is None or a is type(None):
+    return "None"
+  if a is typing.Any or a is object:
+    return "top"
+  if isinstance(a, type):
+    if a.__name__ in USER:
+      return "user"
+    if a in SCALARS:
+      return "scalar"
+    return a.__name__
+  return canon(a)
+
+
+def ann_skeleton(a, top=True):
+  """Keeps every constructor; top-level builtin leaf keeps its name; nested leaves -> kind."""
+  import typing
+  if isinstance(a, list):
+    return "[" + ", ".join(ann_skeleton(x, False) for x in a) + "]"
+  if a is Ellipsis:
+    return "..."
+  origin, args = typing.get_origin(a), typing.get_args(a)
+  if origin is None or not args:
+    if top:
+      if isinstance(a, type) and a.__name__ in USER:
+        return "user"
+      return canon(a)
+    if origin is not None:       # bare Hashable / Sized / Tuple[()] nested
+      return canon(a)
+    return _leaf_kind(a)
+  c = canon(a)
+  name = c[:c.index("[")]
+  return f"{name}[{', '.join(ann_skeleton(x, False) for x in args)}]"
+
+
+def ann_head(a):
+  c = canon(a)
+  return c[:c.index("[")] if "[" in c and not c.startswith("Tuple[()]") else c
+
+
+def vdesc(v):
+  """Class-level description of a value; equal descriptions are interchangeable for pytype and the oracle."""
   import types
   if v is None:
     return "None"
   if isinstance(v, type):
     return f"class:{v.__name__}"
   if isinstance(v, (types.FunctionType, types.BuiltinFunctionType, types.MethodType)):
-    return "function"
+    return "function:" + getattr(v, "__name__", "?")
   if isinstance(v, (list, set, frozenset)):
-    inner = sorted({val_leaf(e) for e in v})
+    inner = sorted({vdesc(e) for e in v})
     return f"{type(v).__name__}[{'|'.join(inner)}]"
   if isinstance(v, tuple):
-    return f"tuple[{', '.join(val_leaf(e) for e in v)}]"
+    return f"tuple[{', '.join(vdesc(e) for e in v)}]"
   if isinstance(v, dict):
-    ks = sorted({val_leaf(e) for e in v.keys()})
-    vs = sorted({val_leaf(e) for e in v.values()})
-    return f"dict[{'|'.join(ks)}, {'|'.join(vs)}]"
+    ks = sorted({vdesc(e) for e in v.keys()})
+    vs = sorted({vdesc(e) for e in v.values()})
+    return f"dict[{'|'.join(ks)}: {'|'.join(vs)}]"
   return type(v).__name__
 
 
+def _vkind(v):
+  import types
+  if v is None:
+    return "None"
+  if isinstance(v, type):
+    return "class"
+  if isinstance(v, (types.FunctionType, types.BuiltinFunctionType, types.MethodType)):
+    return "function"
+  if type(v).__name__ in USER:
+    return "user"
+  if type(v) in SCALARS:
+    return "scalar"
+  return None
+
+
+def value_head(v, ann=None):
+  """Top-level class of a value (builtin names kept; user instance with its relation to a user-class annotation)."""
+  k = _vkind(v)
+  if k in ("None", "class", "function"):
+    return k
+  if k == "user":
+    rel = ""
+    if isinstance(ann, type) and ann.__name__ in USER:
+      t = type(v)
+      rel = ("=same" if t is ann else "=sub" if issubclass(t, ann) else
+             "=super" if issubclass(ann, t) else "=unrelated")
+    return "user-inst" + rel
+  if isinstance(v, tuple):
+    return f"tuple/{len(v)}"
+  return type(v).__name__
+
+
+def value_skeleton(v, top=True):
+  k = _vkind(v)
+  if k is not None:
+    if top and k in ("scalar",):
+      return type(v).__name__
+    return k if k != "user" else "user-inst"
+  if isinstance(v, (list, set, frozenset)):
+    return f"{type(v).__name__}[{'|'.join(sorted({value_skeleton(e, False) for e in v}))}]"
+  if isinstance(v, tuple):
+    return f"tuple[{', '.join(value_skeleton(e, False) for e in v)}]"
+  if isinstance(v, dict):
+    ks = "|".join(sorted({value_skeleton(e, False) for e in v.keys()}))
+    vs = "|".join(sorted({value_skeleton(e, False) for e in v.values()}))
+    return f"dict[{ks}: {vs}]"
+  return type(v).__name__
+
+
+def describe(ns, ann_text, val_text):
+  """Everything the parent needs about one (annotation, value) pair; no pytype involved."""
+  from vf.oracle import member as M
+  try:
+    ann = eval(ann_text, ns)  # pylint: disable=eval-used
+    val = eval(val_text, ns)  # pylint: disable=eval-used
+  except Exception as e:  # pylint: disable=broad-except
+    return {"member": None, "note": f"eval failed: {type(e).__name__}: {e}"}
+  m = M.member(val, ann)
+  d = {"member": m, "canon": canon(ann), "vdesc": vdesc(val)}
+  if m is None:
+    return d
+  # pieces for localisation and keys
+  ps = M.parts(val, ann)
+  pm = [(M.member(sv, sa), canon(sa), vdesc(sv)) for sv, sa in ps]
+  import typing
+  if m is False:
+    d["parts"] = [[c, vd] for mm, c, vd in pm if mm is False]
+    if ps and typing.get_origin(ann) is not typing.Union:
+      # per position of the constructor: does it hold a member at all?
+      by_pos = collections.defaultdict(list)
+      for (sv, sa), (mm, c, vd) in zip(ps, pm):
+        by_pos[c].append(mm)
+      shape = "mixed"
+      for c, ms in by_pos.items():
+        if False in ms and True not in ms:
+          shape = "no-member"
+      d["own"] = f"{ann_head(ann)}[.]|{shape}"
+    elif ps:
+      d["own"] = f"{ann_skeleton(ann)}|no-branch|{value_head(val)}"
+    else:
+      d["own"] = f"{ann_skeleton(ann)}|{value_head(val, ann)}"
+    d["why"] = [{"path": list(p), "ann": canon(sa), "val": vdesc(sv)}
+                for p, sa, sv in M.why(val, ann)][:4]
+  else:
+    d["parts"] = [[c, vd] for mm, c, vd in pm if mm is True]
+    d["own"] = f"{ann_skeleton(ann)}|{value_skeleton(val)}"
+  return d
+
+
 def judge_module(pairs, ns):
+  """-> list of per-pair dicts {ann, val, member, canon, vdesc, sites:{site: {flagged, others, msg}} ...}"""
   from vf import pt
   src, layout = build_module(pairs)
   res = pt.analyze(src)
@@ -111,72 +270,202 @@ def judge_module(pairs, ns):
     by_line[line].append((name, msg))
   out = []
   for i, (ann, val) in enumerate(pairs):
-    m, note, causes = oracle(ns, ann, val)
+    d = describe(ns, ann, val)
+    d["ann"], d["val"] = ann, val
+    sites = {}
     for site in SITES:
       dline, uline = layout[i][site]
       here = by_line.get(uline, [])
       defs = by_line.get(dline, []) if dline != uline else []
-      expected_name = SITE_ERROR[site]
-      flagged = any(n == expected_name for n, _ in here)
-      others = sorted({n for n, _ in here if n != expected_name} | {n for n, _ in defs})
-      rec = {"ann": ann, "val": val, "site": site, "member": m, "flagged": flagged,
-             "others": others}
-      if causes:
-        rec["causes"] = causes
-      if flagged:
-        rec["msg"] = [msg for n, msg in here if n == expected_name][0][:400]
-      if note:
-        rec["note"] = note
-      out.append(rec)
+      want = SITE_ERROR[site]
+      flagged = any(n == want for n, _ in here)
+      others = sorted({n for n, _ in here if n != want} | {"def:" + n for n, _ in defs})
+      s = {"flagged": flagged}
+      if others:
+        s["others"] = others
+      if flagged and d.get("member") is True:
+        s["msg"] = [msg for n, msg in here if n == want][0][:300]
+      sites[site] = s
+    d["sites"] = sites
+    out.append(d)
   return out
 
 
 def child(arg):
   ns = runtime_namespace()
   pairs = [tuple(p) for p in arg["pairs"]]
-  size = arg["module_pairs"]
-  records = []
+  size = arg.get("module_pairs", MODULE_PAIRS)
+  out = []
   for k in range(0, len(pairs), size):
-    records.extend(judge_module(pairs[k:k + size], ns))
-  return {"records": records}
+    for d in judge_module(pairs[k:k + size], ns):
+      # compact: drop oracle detail of agreeing / undecided pairs
+      dis = False
+      if d.get("member") is not None:
+        for s in d["sites"].values():
+          if not s.get("others") and s["flagged"] == d["member"]:
+            dis = True
+      if not dis:
+        for k2 in ("parts", "own", "why"):
+          d.pop(k2, None)
+      out.append(d)
+  return {"pairs": out}
 
 
 # ---------------------------------------------------------------------------
-# parent
+# parent side
+
+
+def verdict(d, site):
+  """'agree' | 'missed' | 'spurious' | 'undecided' | 'unjudged'"""
+  s = d["sites"][site]
+  if s.get("others"):
+    return "unjudged"
+  if d.get("member") is None:
+    return "undecided"
+  if d["member"] and s["flagged"]:
+    return "spurious"
+  if not d["member"] and not s["flagged"]:
+    return "missed"
+  return "agree"
+
+
+class Keyer:
+  """Localises disagreements through the table of all verdicts of this run."""
+
+  def __init__(self, recs):
+    self.table = {}
+    for d in recs:
+      if "canon" in d:
+        self.table.setdefault((d["canon"], d["vdesc"]), d)
+    self.lookups = self.lookup_missing = self.localised = 0
+
+  def sitefree(self, d, site, direction, depth=0):
+    if direction == "missed" and site == "assign" and d["vdesc"] == "None":
+      return "any|None"
+    if depth < 4:
+      for c, vd in d.get("parts") or []:
+        self.lookups += 1
+        sub = self.table.get((c, vd))
+        if sub is None:
+          self.lookup_missing += 1
+          continue
+        if verdict(sub, site) == direction and "own" in sub:
+          if depth == 0:
+            self.localised += 1
+          return self.sitefree(sub, site, direction, depth + 1)
+    return d["own"]
 
 
 def grid(tier):
-  values = [v for v, _ in ground.C02_VALUES]
-  anns = ground.c02_annotations(1 if tier == "quick" else 2)
-  return anns, values
+  return ground.c02_annotations(tier), ground.c02_values(tier)
+
+
+RULE = ("cross product of the annotation grammar (quick: depth<=1 over a leaf subset, thorough: "
+        "depth<=2) and the ground value list at the three sites; evaluations = judged (pair, site) "
+        "cases, i.e. the oracle decided and pytype accepted the annotation; non-trivial = judged case "
+        "where an error is expected or the annotation has at least one type constructor; distinct by "
+        "(annotation, value, site)")
 
 
 def run(tier, seed):
-  ck = common.Check(PID, tier, seed, rule="TODO")
+  ck = common.Check(PID, tier, seed, rule=RULE)
   anns, values = grid(tier)
   pairs = [(a, v) for a in anns for v in values]
   rng = random.Random(f"{PID}-{seed}-order")
-  rng.shuffle(pairs)
-  nb = 64 if tier == "quick" else 512
-  per = (len(pairs) + nb - 1) // nb
+  rng.shuffle(pairs)            # which cases share a module depends on the seed; verdicts must not
+  per = 2 * MODULE_PAIRS if tier == "quick" else 5 * MODULE_PAIRS
   tasks = []
-  for b in range(nb):
-    chunk = pairs[b * per:(b + 1) * per]
-    if chunk:
-      tasks.append({"fn": "vf.checks.c02:child", "id": f"b{b}", "timeout": 1500,
-                    "arg": {"pairs": chunk, "module_pairs": 100}})
-  allrecs = []
+  for b, k in enumerate(range(0, len(pairs), per)):
+    tasks.append({"fn": "vf.checks.c02:child", "id": f"b{b}", "timeout": 2400,
+                  "arg": {"pairs": pairs[k:k + per], "module_pairs": MODULE_PAIRS}})
+  recs = []
   for res in pool.run_tasks(tasks):
     if not res.get("ok"):
       ck.child_failed(res, f"batch {res.get('task')}")
       continue
-    allrecs.extend(res["result"]["records"])
-  import json, os
-  with open(os.environ.get("C02_DUMP", "/tmp/c02-dump.json"), "w") as f:
-    json.dump(allrecs, f)
-  print(len(allrecs))
-  return 2
+    recs.extend(res["result"]["pairs"])
+  evaluate(ck, recs)
+  ck.count("pairs_generated", len(pairs))
+  ck.extra["grid"] = {"annotations": len(anns), "values": len(values), "sites": 3}
+  ck.exhaustive = False
+  ck.extra["exhaustive_slice"] = ("the whole annotation x value x site grid of this tier is "
+                                  "enumerated (no sampling); the seed only permutes module membership")
+  ck.assumptions = [
+      "member() implements PEP 484 membership on run-time values; undecided is never a verdict",
+      "a list whose elements all inhabit T inhabits List[T] (value-level reading of invariance)",
+      "an error of another class on the use line or any error on the def line means pytype did "
+      "not accept the case as posed: not judged",
+  ]
+  if ck.evaluations == 0:
+    ck.inconclusive("no case was judged")
+  return ck.finish()
+
+
+def evaluate(ck, recs):
+  recs = sorted(recs, key=lambda d: (d["ann"], d["val"]))
+  keyer = Keyer(recs)
+  fps = set()
+  n_eval = 0
+  err_names = collections.Counter()
+  for d in recs:
+    per_site = {}
+    for site in SITES:
+      v = verdict(d, site)
+      ck.count("verdict_" + v)
+      if v == "unjudged":
+        for o in d["sites"][site]["others"]:
+          err_names[o] += 1
+        continue
+      if v == "undecided":
+        continue
+      n_eval += 1
+      expect_error = not d["member"]
+      ck.count("expected_error" if expect_error else "expected_clean")
+      if expect_error or "[" in d["ann"]:
+        fps.add(common.fp([d["ann"], d["val"], site]))
+      if v in ("missed", "spurious"):
+        per_site[site] = (v, keyer.sitefree(d, site, v))
+    if not per_site:
+      continue
+    groups = collections.defaultdict(list)
+    for site, (v, k) in per_site.items():
+      groups[(v, k)].append(site)
+    for (v, k), sites in sorted(groups.items()):
+      if len(sites) == 3:
+        labels = [("all-sites", sites)]
+      else:
+        labels = [(s, [s]) for s in sites]
+      for label, ss in labels:
+        key = f"{v}|{label}|{k}"
+        ck.count("disagreements_" + v)
+        ck.violation(key, {
+            "annotation": d["ann"], "value": d["val"], "sites": ss, "direction": v,
+            "oracle_member": d["member"], "pytype_flagged": {s: d["sites"][s]["flagged"] for s in ss},
+            "why_not_member": d.get("why"), "own_skeleton_key": d.get("own"),
+            "pytype_message": next((d["sites"][s].get("msg") for s in ss if d["sites"][s].get("msg")), None),
+            "program": build_module([(d["ann"], d["val"])])[0]})
+  ck.merge_cases(n_eval, fps)
+  ck.count("localised_to_a_part", keyer.localised)
+  ck.count("part_lookups", keyer.lookups)
+  ck.count("part_lookups_outside_grid", keyer.lookup_missing)
+  if err_names:
+    ck.extra["unjudged_error_classes"] = dict(err_names)
+  sample_rng = random.Random(f"{PID}-{ck.seed}-s")
+  for d in sample_rng.sample(recs, min(6, len(recs))):
+    ck.sample({"annotation": d["ann"], "value": d["val"], "oracle_member": d.get("member"),
+               "flagged": {s: d["sites"][s]["flagged"] for s in SITES}})
 
 
 def replay(rec):
+  w = rec["witness"]
+  ns = runtime_namespace()
+  d = judge_module([(w["annotation"], w["value"])], ns)[0]
+  bad = [(s, verdict(d, s)) for s in w["sites"] if verdict(d, s) in ("missed", "spurious")]
+  print({"annotation": w["annotation"], "value": w["value"], "oracle_member": d.get("member"),
+         "flagged": {s: d["sites"][s]["flagged"] for s in SITES}})
+  if bad and rec.get("key") not in common.load_known(PID):
+    print(f"VIOLATION property={PID} replay=<replayed>")
+    print(f"  mechanism: {rec.get('key')}  still disagrees at {bad}")
+    return 1
+  print("replay: no (unlisted) disagreement")
   return 0
